@@ -388,7 +388,30 @@ func (a *A) placeholderConfined(fam string, pos token.Pos) {
 				return
 			}
 			n++
-			if _, fresh := mu.Map.(*ssa.MakeMap); !fresh {
+			// a map made here, or a scratch map taken from a sync.Pool (emptied by the pool's discipline,
+			// flow/pooled-map-cleared): in either case an object no row outside this evaluation refers to
+			fresh := true
+			for _, l := range phiLeaves(mu.Map) {
+				switch x := l.(type) {
+				case *ssa.MakeMap:
+				case *ssa.Extract:
+					ta, isTA := x.Tuple.(*ssa.TypeAssert)
+					if !isTA || x.Index != 0 {
+						fresh = false
+						break
+					}
+					if gc, isCall := ta.X.(*ssa.Call); !isCall || calleeFull(&gc.Call) != "(*sync.Pool).Get" {
+						fresh = false
+					}
+				case *ssa.TypeAssert:
+					if gc, isCall := x.X.(*ssa.Call); !isCall || calleeFull(&gc.Call) != "(*sync.Pool).Get" {
+						fresh = false
+					}
+				default:
+					fresh = false
+				}
+			}
+			if !fresh {
 				okAll = false
 				why = fmt.Sprintf("%s writes a placeholder into %s, which is not a map made in that function", fname(fn), TermOf(mu.Map, nil))
 				return
@@ -408,8 +431,25 @@ func (a *A) placeholderConfined(fam string, pos token.Pos) {
 						for _, r := range *refs {
 							switch u := r.(type) {
 							case *ssa.Phi, *ssa.MakeInterface, *ssa.ChangeType, *ssa.Convert:
+							case *ssa.Range, *ssa.BinOp:
+								// walked to be emptied, compared with nil: the row goes nowhere
+								continue
 							case *ssa.Call:
 								if isPredicateEvalCall(&u.Call) {
+									continue
+								}
+								// emptied and handed back to the scratch pool it came from (flow/pooled-map-cleared judges
+								// that it is empty when it goes back)
+								if _, isDel := isBuiltinCall(u, "delete"); isDel {
+									continue
+								}
+								if _, isLen := isBuiltinCall(u, "len"); isLen {
+									continue
+								}
+								if _, isClr := isBuiltinCall(u, "clear"); isClr {
+									continue
+								}
+								if calleeFull(&u.Call) == "(*sync.Pool).Put" {
 									continue
 								}
 								// a same-package helper that only hands its parameter to the predicate
